@@ -22,6 +22,9 @@ type AttrReadCase struct {
 	Sizes     []int  `json:"sizes"` // data bytes of each attribute (one-dimensional uint8 arrays)
 	Seed      int    `json:"seed"`
 	Off       int    `json:"off,omitempty"` // 4: 4-byte file offsets and lengths
+	// Max: the first attribute is sized so that its encoded message is exactly the largest managed object (65536 bytes);
+	// blocks above 64 KiB only
+	Max bool `json:"max,omitempty"`
 }
 
 func genAttrRead(t *rapid.T) AttrReadCase {
@@ -42,6 +45,9 @@ func genAttrRead(t *rapid.T) AttrReadCase {
 	if len(c.Sizes) == 0 {
 		c.Sizes = []int{8}
 	}
+	if c.BlockSize > 65536 && rapid.IntRange(0, 3).Draw(t, "max") == 0 {
+		c.Max = true
+	}
 	return c
 }
 
@@ -53,6 +59,9 @@ func classifyAttrRead(c AttrReadCase) (bool, []string) {
 	labels := []string{fmt.Sprintf("block=%d", c.BlockSize)}
 	if total > 65535 {
 		labels = append(labels, "heap_offsets_beyond_16_bits")
+	}
+	if c.Max && c.BlockSize > 65536 {
+		labels = append(labels, "object_of_the_largest_managed_size")
 	}
 	return len(c.Sizes) >= 2, labels
 }
@@ -77,7 +86,14 @@ func runAttrRead(c AttrReadCase) vt.Verdict {
 		if sz < 1 || sz > 60000 {
 			return vt.Skipped("size outside the generated domain")
 		}
+		sz := sz
 		name := fmt.Sprintf("attr_%03d_%d", i, c.Seed%97)
+		if i == 0 && c.Max && c.BlockSize > 65536 {
+			probe, err := core.EncodeAttributeFromStruct(&core.Attribute{Name: name, Datatype: dt, Dataspace: &core.DataspaceMessage{Dimensions: []uint64{8}}, Data: make([]byte, 8)}, sb)
+			if err == nil && len(probe) > 8 && len(probe) < 200 {
+				sz = maxManaged - (len(probe) - 8)
+			}
+		}
 		data := payload(sz, c.Seed+i)
 		msg, err := core.EncodeAttributeFromStruct(&core.Attribute{Name: name, Datatype: dt, Dataspace: &core.DataspaceMessage{Dimensions: []uint64{uint64(sz)}}, Data: data}, sb)
 		if err != nil {
